@@ -253,7 +253,9 @@ class Runner:
 
     def on_violation(self, unit, v, r):
         failed = [l for l, _ in r["failed"]]
-        if v["label"] in failed:
+        if v["label"].startswith("harness-exception:"):
+            self.harness_errors.append("%s: %s %s inputs=%s" % (unit, v["label"], v.get("detail", "")[-400:], json.dumps(v["inputs"])[:300]))
+        elif v["label"] in failed:
             path = self.write_replay(unit, v, r)
             self.violations.append((unit, v, path))
         elif any(l == v["label"] for l, _ in map(tuple, r["excused"])):
